@@ -232,6 +232,7 @@ contract(f'{TC}::TrajectoryCalc._integrate', tag='vacuum', props=('C01',),
                     'seen_zero': Flags()})},
          raises={'RangeError': None},
          modifies=['*._defined_units'], prune=True, heavy=True, witnesses=[_vac_witness(0), _vac_witness(31)],
+         hints=['div-bounds'],
          result_shape=ListOf(ROW, minlen=1).alternatives()[0],
          use={f'{TC}::_TrajectoryDataFilter.should_record': ['settings-untouched', 'time-of-last-record-is-the-old-one-or-now',
                                                              'remembers-the-current-state-for-the-next-step'],
